@@ -113,18 +113,4 @@ def dict_tables(repo):
     if attrs is None:
         raise Abort("model_from_dict: `k in {...}` not found")
     out.append("Definition dt_model_attrs : list (list Z) := %s." % _coq_strs(sorted(attrs)))
-    # the order in which model_from_dict builds the model: metabolites, genes, reactions, objective
-    src = ast.unparse(mfd)
-    order = [src.find("model.add_metabolites("), src.find("model.genes.extend("), src.find("model.add_reactions("),
-             src.find("set_objective(model, coefficients)")]
-    if -1 in order or order != sorted(order):
-        raise Abort("model_from_dict: construction order not recognised")
-    if "rxn.get('objective_coefficient', 0) != 0" not in src:
-        raise Abort("model_from_dict: objective filter not recognised")
-    # model_to_dict: the three lists, the id, the optional attributes, then the optional sort
-    mtd = ast.unparse(find_def(tree, "model_to_dict"))
-    order = [mtd.find("obj['metabolites'] ="), mtd.find("obj['reactions'] ="), mtd.find("obj['genes'] ="),
-             mtd.find("obj['id'] = model.id"), mtd.find("_update_optional(model, obj"), mtd.find("if sort:")]
-    if -1 in order or order != sorted(order):
-        raise Abort("model_to_dict: shape not recognised")
     return "\n".join(out)
